@@ -8,6 +8,7 @@ import (
 	"encoding/hex"
 	"fmt"
 	"math"
+	"sort"
 	"strings"
 
 	"diagonal.works/b6"
@@ -38,14 +39,64 @@ func pPoints(ps []*pb.PointProto) []string {
 	return out
 }
 
+// rawGeometry switches the canonical form of polygon loops off (used to see whether a second conversion
+// changes the orientation or order of the loops, which the canonical form hides)
+var rawGeometry = false
+
+// canonLoop rotates a ring to start at its smallest (lat, lng) vertex and walks it towards the smaller of
+// the two neighbours: the same vertex cycle in either orientation and from any start prints alike.
+func canonLoop(pts [][2]int64) [][2]int64 {
+	n := len(pts)
+	if n == 0 || rawGeometry {
+		return pts
+	}
+	less := func(a, b [2]int64) bool { return a[0] < b[0] || (a[0] == b[0] && a[1] < b[1]) }
+	m := 0
+	for i := range pts {
+		if less(pts[i], pts[m]) {
+			m = i
+		}
+	}
+	next, prev := pts[(m+1)%n], pts[(m+n-1)%n]
+	out := make([][2]int64, n)
+	for i := 0; i < n; i++ {
+		if less(prev, next) {
+			out[i] = pts[((m-i)%n+n)%n]
+		} else {
+			out[i] = pts[(m+i)%n]
+		}
+	}
+	return out
+}
+
+// canonPoly prints the loops of a polygon in canonical form, sorted
+func canonPoly(loops [][][2]int64) string {
+	strs := make([]string, len(loops))
+	for i, l := range loops {
+		words := []string{"loop"}
+		for _, p := range canonLoop(l) {
+			words = append(words, fmt.Sprint(p[0]), fmt.Sprint(p[1]))
+		}
+		strs[i] = paren(words...)
+	}
+	if !rawGeometry {
+		sort.Strings(strs)
+	}
+	return paren(append([]string{"poly"}, strs...)...)
+}
+
 func pMulti(m *pb.MultiPolygonProto) []string {
 	out := []string{}
 	for _, poly := range m.GetPolygons() {
-		loops := []string{"poly"}
+		loops := [][][2]int64{}
 		for _, l := range poly.GetLoops() {
-			loops = append(loops, paren(append([]string{"loop"}, pPoints(l.GetPoints())...)...))
+			pts := [][2]int64{}
+			for _, p := range l.GetPoints() {
+				pts = append(pts, [2]int64{int64(p.GetLatE7()), int64(p.GetLngE7())})
+			}
+			loops = append(loops, pts)
 		}
-		out = append(out, paren(loops...))
+		out = append(out, canonPoly(loops))
 	}
 	return out
 }
@@ -208,11 +259,16 @@ func ePoints(ps []s2.Point) []string {
 func ePolygons(ps []*s2.Polygon) []string {
 	out := []string{}
 	for _, p := range ps {
-		loops := []string{"poly"}
+		loops := [][][2]int64{}
 		for _, l := range p.Loops() {
-			loops = append(loops, paren(append([]string{"loop"}, ePoints(l.Vertices())...)...))
+			pts := [][2]int64{}
+			for _, v := range l.Vertices() {
+				ll := s2.LatLngFromPoint(v)
+				pts = append(pts, [2]int64{int64(ll.Lat.E7()), int64(ll.Lng.E7())})
+			}
+			loops = append(loops, pts)
 		}
-		out = append(out, paren(loops...))
+		out = append(out, canonPoly(loops))
 	}
 	return out
 }
@@ -424,9 +480,14 @@ func (g *gen) anyPoint() *pb.PointProto {
 	return g.point()
 }
 
-// a point away from the poles and the antimeridian (geometry that is held as s2.Point)
+// a point for geometry that is held as s2.Point: anywhere, the poles and the antimeridian included
 func (g *gen) point() *pb.PointProto {
 	r := g.c.Rand
+	if r.Chance(1, 6) {
+		g.c.Note("geometry:pole-or-antimeridian")
+		return &pb.PointProto{LatE7: []int32{900000000, -900000000, 899999999, 10, 0, -899999990}[r.Intn(6)],
+			LngE7: []int32{1800000000, -1800000000, 1799999999, 123, -1799999990, 0}[r.Intn(6)]}
+	}
 	return &pb.PointProto{LatE7: int32(r.Intn(1780000000)) - 890000000, LngE7: int32(r.Intn(3580000000)) - 1790000000}
 }
 
@@ -435,7 +496,18 @@ func (g *gen) polyline() *pb.PolylineProto {
 	p := &pb.PolylineProto{LengthMeters: g.float()}
 	base := g.point()
 	for i := 0; i < n; i++ {
-		p.Points = append(p.Points, &pb.PointProto{LatE7: base.LatE7 + int32(g.c.Rand.Intn(20000)) - 10000, LngE7: base.LngE7 + int32(g.c.Rand.Intn(20000)) - 10000})
+		clamp := func(v, lo, hi int64) int32 {
+			if v < lo {
+				return int32(lo)
+			}
+			if v > hi {
+				return int32(hi)
+			}
+			return int32(v)
+		}
+		p.Points = append(p.Points, &pb.PointProto{
+			LatE7: clamp(int64(base.LatE7)+int64(g.c.Rand.Intn(20000))-10000, -900000000, 900000000),
+			LngE7: clamp(int64(base.LngE7)+int64(g.c.Rand.Intn(20000))-10000, -1800000000, 1800000000)})
 	}
 	return p
 }
@@ -453,12 +525,34 @@ func (g *gen) multipolygon() *pb.MultiPolygonProto {
 			a := 2 * math.Pi * float64(j) / float64(n)
 			loop.Points = append(loop.Points, &pb.PointProto{LatE7: c.LatE7 + int32(radius*math.Sin(a)), LngE7: c.LngE7 + int32(radius*math.Cos(a))})
 		}
-		if r.Bool() {
-			for a, b := 0, len(loop.Points)-1; a < b; a, b = a+1, b-1 {
-				loop.Points[a], loop.Points[b] = loop.Points[b], loop.Points[a]
+		reverse := func(l *pb.LoopProto) {
+			for a, b := 0, len(l.Points)-1; a < b; a, b = a+1, b-1 {
+				l.Points[a], l.Points[b] = l.Points[b], l.Points[a]
 			}
 		}
-		m.Polygons = append(m.Polygons, &pb.PolygonProto{Loops: []*pb.LoopProto{loop}})
+		if r.Bool() {
+			reverse(loop)
+		}
+		loops := []*pb.LoopProto{loop}
+		if r.Chance(1, 3) {
+			// a hole: a smaller ring around the same centre, in either orientation, before or after the shell
+			g.c.Note("geometry:polygon-with-hole")
+			hole := &pb.LoopProto{}
+			hn := 3 + r.Intn(3)
+			for j := 0; j < hn; j++ {
+				a := 2*math.Pi*float64(j)/float64(hn) + 0.3
+				hole.Points = append(hole.Points, &pb.PointProto{LatE7: c.LatE7 + int32(radius/3*math.Sin(a)), LngE7: c.LngE7 + int32(radius/3*math.Cos(a))})
+			}
+			if r.Bool() {
+				reverse(hole)
+			}
+			if r.Chance(1, 4) {
+				loops = []*pb.LoopProto{hole, loop}
+			} else {
+				loops = append(loops, hole)
+			}
+		}
+		m.Polygons = append(m.Polygons, &pb.PolygonProto{Loops: loops})
 	}
 	return m
 }
@@ -711,7 +805,8 @@ func opRT(c *hx.Ctx, p *pb.NodeProto) {
 		c.Note("rt:not-marshallable")
 		return
 	}
-	fields := []string{"-", "-", "-", "-", "-"}
+	// E | P' | E' | P'' | Equal(E, E') | P'' == P' with the loops of polygons as they are (not canonicalised)
+	fields := []string{"-", "-", "-", "-", "-", "-"}
 	e, r1 := fromProto(w)
 	fields[0] = r1.text
 	if r1.ok {
@@ -721,9 +816,14 @@ func opRT(c *hx.Ctx, p *pb.NodeProto) {
 			e2, r3 := fromProto(p2)
 			fields[2] = r3.text
 			if r3.ok {
-				_, r4 := toProto(e2)
+				p3, r4 := toProto(e2)
 				fields[3] = r4.text
 				fields[4] = equal(e, e2)
+				if r4.ok {
+					rawGeometry = true
+					fields[5] = b01(pNode(p2) == pNode(p3))
+					rawGeometry = false
+				}
 			}
 		}
 	}
@@ -969,6 +1069,23 @@ func corpus(c *hx.Ctx) {
 		Center: &pb.PointProto{LatE7: 752781571, LngE7: 1481745808}, RadiusMeters: math.Float64frombits(0x40cc7de147ae149a)}}}))
 	opRT(c, lit(&pb.QueryProto{Query: &pb.QueryProto_IntersectsCap{IntersectsCap: &pb.CapProto{
 		Center: &pb.PointProto{LatE7: 515000000, LngE7: -1000000}, RadiusMeters: 500}}}))
+	// fixes/C19-loop-proto-normalize.patch: a square with a square hole, the hole clockwise (WKT order) and
+	// counter-clockwise, and listed before the shell
+	ring := func(xs ...int32) *pb.LoopProto {
+		l := &pb.LoopProto{}
+		for i := 0; i < len(xs); i += 2 {
+			l.Points = append(l.Points, &pb.PointProto{LatE7: xs[i], LngE7: xs[i+1]})
+		}
+		return l
+	}
+	shell := ring(0, 0, 0, 1000000, 1000000, 1000000, 1000000, 0)
+	holeCW := ring(250000, 250000, 750000, 250000, 750000, 750000, 250000, 750000)
+	holeCCW := ring(250000, 250000, 250000, 750000, 750000, 750000, 750000, 250000)
+	for _, loops := range [][]*pb.LoopProto{{shell, holeCW}, {shell, holeCCW}, {holeCCW, shell}} {
+		m := &pb.MultiPolygonProto{Polygons: []*pb.PolygonProto{{Loops: loops}}}
+		opRT(c, &pb.NodeProto{Node: &pb.NodeProto_Literal{Literal: &pb.LiteralNodeProto{Value: &pb.LiteralNodeProto_AreaValue{AreaValue: m}}}})
+		opRT(c, lit(&pb.QueryProto{Query: &pb.QueryProto_IntersectsMultiPolygon{IntersectsMultiPolygon: m}}))
+	}
 	opEX(c, b6.Expression{AnyExpression: b6.NilExpression{}})
 	opEX(c, b6.Expression{})
 	opEX(c, b6.Expression{AnyExpression: b6.QueryExpression{Query: b6.Empty{}}})
@@ -981,7 +1098,7 @@ func corpus(c *hx.Ctx) {
 func main() {
 	hx.Main(hx.Family{
 		Name: "c19",
-		Rule: "2 client requests per case (random NodeProto trees of depth <= 5 over symbols, calls, lambdas, 11 literal kinds incl. nested collections, routes, geometry at E7, and query trees of depth <= 3 over 11 query kinds; every fourth case also draws shapes the server rejects: nil / unset / unsupported literals and queries, unknown enum numbers, collection length mismatch) sent over the real wire encoding, plus 1 server-side expression (every fourth with nil literals, non-string tag values, Empty/IsValid/IntersectsCells, queries or nil inside collections, positions beyond int32); non-trivial = the request has depth >= 3 and contains a query or collection literal",
+		Rule: "2 client requests per case (random NodeProto trees of depth <= 5 over symbols, calls, lambdas, 11 literal kinds incl. nested collections, routes, geometry at E7 incl. poles / antimeridian and polygons with holes in either orientation, and query trees of depth <= 3 over 11 query kinds; every fourth case also draws shapes the server rejects: nil / unset / unsupported literals and queries, unknown enum numbers, collection length mismatch) sent over the real wire encoding, plus 1 server-side expression (every fourth with nil literals, non-string tag values, Empty/IsValid/IntersectsCells, queries or nil inside collections, positions beyond int32); non-trivial = the request has depth >= 3 and contains a query or collection literal",
 		Quick:    2500,
 		Thorough: 120000,
 		Corpus:   corpus,
